@@ -12,6 +12,8 @@ package c02
 
 import (
 	"fmt"
+	"math"
+	"reflect"
 	"sort"
 	"strconv"
 	"strings"
@@ -19,11 +21,13 @@ import (
 	"testing"
 	"testing/synctest"
 	"time"
+	"unsafe"
 
 	"cell2verif/hx"
 	"cell2verif/node"
 
 	api "github.com/dfklegend/cell2/apimapper"
+	as "github.com/dfklegend/cell2/actorex/service"
 	"github.com/dfklegend/cell2/apimapper/apientry"
 	"github.com/dfklegend/cell2/node/client/impls"
 	"github.com/dfklegend/cell2/node/cluster"
@@ -82,6 +86,17 @@ func (z *Zoo) Late(ctx *impls.HandlerContext, a *Arg, cb apientry.HandlerCBFunc)
 	ns.GetRunService().GetTimerMgr().After(42*time.Second, func(args ...interface{}) {
 		apientry.CheckInvokeCBFunc(cb, nil, r)
 	})
+}
+
+// RetNaN can not be marshalled by the json serializer.
+type RetNaN struct {
+	F float64 `json:"f"`
+}
+
+// Nan completes successfully with a value the client serializer refuses.
+func (z *Zoo) Nan(ctx *impls.HandlerContext, a *Arg, cb apientry.HandlerCBFunc) {
+	enter(ctx, "nan", a)
+	apientry.CheckInvokeCBFunc(cb, nil, &RetNaN{F: math.NaN()})
 }
 
 // Tell is notify-shaped (no completion function).
@@ -266,6 +281,32 @@ func (w *world) exec(op string) string {
 			return "bad-op"
 		}
 		return w.collect()
+	case "hs", "ack":
+		i := hx.KVInt(ws, "c")
+		if i >= len(w.clients) {
+			return "bad-op"
+		}
+		ok := false
+		if ws[0] == "hs" {
+			ok = w.clients[i].Handshake()
+		} else {
+			ok = w.clients[i].Ack()
+		}
+		if !ok {
+			return "bad-op"
+		}
+		return "ok"
+	case "wrap":
+		// the front's service-request counter is set k below MaxReqId (unexported field, written on
+		// the owner goroutine): the next forwarded requests are numbered across the wrap
+		k := hx.KVInt(ws, "k")
+		w.n.RunOn("gate-1", func(ns *service.NodeService) {
+			f := reflect.ValueOf(ns.Service).Elem().FieldByName("nextId")
+			if f.IsValid() {
+				*(*int32)(unsafe.Pointer(f.UnsafeAddr())) = as.MaxReqId - int32(k)
+			}
+		})
+		return "ok"
 	case "adv":
 		w.n.Advance(5 * time.Second)
 		return w.collect()
@@ -281,7 +322,7 @@ func (w *world) exec(op string) string {
 var (
 	types      = []string{"gate", "gate", "chat", "chat", "chat", "hall", "room"}
 	groups     = []string{"zoo", "zoo", "zoo", "zoo", "zoo", "zoo", "zoo", "zoo", "nogrp", ""}
-	methods    = []string{"echo", "echo", "echo", "fail", "boom", "slow", "late", "tell", "tell", "nosuch", ""}
+	methods    = []string{"echo", "echo", "echo", "fail", "boom", "slow", "slow", "late", "tell", "tell", "nan", "nosuch", ""}
 	malformed  = []string{"", ".", "..", "...", "gate", "gatezooecho", "gate.zoo", "chat.zoo", "gate.zoo.echo.x", "chat.zoo.echo.x", "a.b.c.d.e", "gate..", "chat..", "..echo", ".zoo.echo", "gate.zoo.", "chat..echo", "gate.zoo.echo.", ".gate.zoo.echo"}
 	bindings   = []string{"chat-1", "chat-1", "chat-2", "chat-2", "chat-7", "chat-9", "gate-1", "hall-1", "-"}
 	specialIDs = []uint64{0, 0, 1, 127, 128, 1<<32 - 1, 16383, 16384}
@@ -404,6 +445,12 @@ func (g *gen) genCase() []string {
 	g.used = map[int]map[uint64]bool{}
 	g.v = 0
 	ops := []string{fmt.Sprintf("reset nc=%d", nc)}
+	if r.Intn(12) == 0 {
+		// nothing is in flight right after a reset: the counter may jump without id collisions
+		g.h.Count("wrap")
+		ops = append(ops, fmt.Sprintf("wrap k=%d", 1+r.Intn(4)))
+	}
+	hsing := map[int]bool{}
 	// most clients start bound so that forwarding is the common path
 	for c := 0; c < nc; c++ {
 		if r.Intn(4) != 0 {
@@ -422,6 +469,22 @@ func (g *gen) genCase() []string {
 			g.h.Count("pipe")
 			ops = append(ops, fmt.Sprintf("pipe c=%d q=%s", nc, strings.Join(items, "|")))
 			nc++
+			continue
+		}
+		if r.Intn(12) == 0 {
+			// re-handshake / ack on a working connection (responses in flight must still arrive)
+			c := r.Intn(nc)
+			if hsing[c] {
+				delete(hsing, c)
+				ops = append(ops, fmt.Sprintf("ack c=%d", c))
+			} else {
+				hsing[c] = true
+				g.h.Count("rehandshake")
+				ops = append(ops, fmt.Sprintf("hs c=%d", c))
+				if r.Intn(2) == 0 {
+					ops = append(ops, "adv")
+				}
+			}
 			continue
 		}
 		switch k := r.Intn(100); {
